@@ -1,6 +1,7 @@
 /-
   C19 — The module content hash is the documented formula over names and bytes only.
-  Property theorems only; helper lemmas live in ModVerif/Proofs/Dirhash*.lean.
+  Property theorems only; helper lemmas live in ModVerif/Proofs/Dirhash*.lean (zip/directory agreement over
+  the C05/C12 zip models: Proofs/DirhashZipCompose.lean, Proofs/DirhashZipModOK.lean).
 
   `sha : Bytes → Bytes` is SHA-256 as an abstract function.  A "file set" is a list of (name, content)
   pairs with distinct names (`hash1Pairs`, `summaryPairs`: `open` looks the name up); the general form
@@ -8,6 +9,7 @@
 -/
 import ModVerif.Proofs.Dirhash
 import ModVerif.Proofs.DirhashZip
+import ModVerif.Proofs.DirhashZipModOK
 namespace ModVerif.Props.C19
 open ModVerif ModVerif.Dirhash
 
@@ -190,5 +192,116 @@ example : hash1 id [[97], [97, 10, 98]] (fun _ => some []) = .error .newline := 
 /-- `zip_dir_agree` is not vacuous: `m@v` and `a/b.go`, `c` satisfy `CleanRel` -/
 example : CleanRel (modPrefix [109] [118]) ∧ CleanRel [97, 47, 98, 46, 103, 111] ∧ CleanRel [99] := by
   refine ⟨?_, ?_, ?_⟩ <;> exact cleanRel_of_check _ (by decide)
+
+
+/-! ### zip/directory agreement over the zip models (C05 `create`, C12 `unzip`) -/
+
+/-- (1) The entries a successful `zip.Create` writes ARE the naming convention of `zip_dir_agree`:
+    `path@version/` ++ file path with the file's content, for the valid files of the file check, in order. -/
+theorem create_is_modZipEntries (E : Zip.Env) (mpath mvers : Bytes) (files : List Zip.FileInfo)
+    (es : List Zip.Entry) (h : Zip.create E mpath mvers files = .ok es) :
+    DirhashZip.zipPairs es = modZipEntries mpath mvers (DirhashZip.validPairs E files) :=
+  DirhashZip.zipPairs_create E mpath mvers files es h
+
+/-- (2) Extracting the created archive into a fresh target succeeds, and the directory tree read off the
+    extraction effects (`treeOfEffects`: the files created strictly below `dir`, by their path relative to
+    `dir`, with the content written) is the directory holding exactly the valid files with their contents. -/
+theorem unzip_tree_is_files (E : Zip.Env) (hE : ZipSpec.CfpSound E.cfp) (dir : Bytes)
+    (hdir : dir = [] ∨ PathClean.pathClean dir = dir ∨ ([46, 46] : Bytes) ∉ splitOn 47 dir) (t : Zip.Target)
+    (ht : t = .missing ∨ t = .emptyDir) (mpath mvers : Bytes) (files : List Zip.FileInfo) (es : List Zip.Entry)
+    (zipSize : Nat) (h : Zip.create E mpath mvers files = .ok es) (hz : zipSize ≤ Zip.MaxZipFile) :
+    (Zip.unzip E dir t mpath mvers zipSize es).err = none ∧
+    DirhashZip.treeOfEffects dir (Zip.unzip E dir t mpath mvers zipSize es).effects =
+      .dir (DirhashZip.validPairs E files) :=
+  DirhashZip.treeOfEffects_unzip E hE dir hdir t ht mpath mvers files es zipSize h hz
+
+/-- (3) Every `module.CheckFilePath`-accepted path is a clean relative path; so is `path@version` for every
+    accepted module path and version; the valid files have pairwise distinct paths. -/
+theorem valid_names_cleanRel (E : Zip.Env) (hE : ZipSpec.CfpSound E.cfp) (hM : DirhashZip.ModOKSound E.modOK)
+    (mpath mvers : Bytes) (hm : E.modOK mpath mvers = true) (files : List Zip.FileInfo) :
+    CleanRel (modPrefix mpath mvers) ∧ (∀ p, E.cfp p = true → CleanRel p) ∧
+    (∀ q ∈ DirhashZip.validPairs E files, CleanRel q.1) ∧
+    ((DirhashZip.validPairs E files).map (·.1)).Nodup :=
+  ⟨DirhashZip.cleanRel_modPrefix_of_sound hM hm, fun _ hp => DirhashZip.cleanRel_of_cfpSound hE hp,
+    DirhashZip.validPairs_cleanRel E hE files, DirhashZip.validPairs_nodup E files⟩
+
+/-- The hypothesis `ModOKSound` (an accepted module path has no empty, `.` or `..` element, an accepted
+    version no slash) holds for the models of `module.Check` / `module.CanonicalVersion` the zip driver plugs
+    into `Env.modOK`; `CfpSound` holds for the model of `module.CheckFilePath` (`Props.C12.cfpSound_checkFilePath`). -/
+theorem modOKSound_check : DirhashZip.ModOKSound DirhashZip.modOKOf := DirhashZip.modOKSound_check
+
+/-- ★ Zip/directory agreement, composed over the zip models.  For every environment whose `CheckFilePath`
+    rejects empty, `.` and `..` elements and whose module check rejects such elements in the path and a
+    slash in the version, every target directory string that is empty, clean, or written without `..`
+    (hypotheses of C05 `create_unzip`), every fresh target, module path, version and file list: if
+    `zip.Create` succeeds with entries `es`, then `zip.Unzip` of `es` into the target succeeds, and
+    `HashZip` of the archive equals `HashDir` of the directory tree the extraction effects build at `dir`,
+    under the prefix `path@version`. -/
+theorem zip_dir_agree_composed (sha : Bytes → Bytes) (E : Zip.Env) (hE : ZipSpec.CfpSound E.cfp)
+    (hM : DirhashZip.ModOKSound E.modOK) (dir : Bytes)
+    (hdir : dir = [] ∨ PathClean.pathClean dir = dir ∨ ([46, 46] : Bytes) ∉ splitOn 47 dir) (t : Zip.Target)
+    (ht : t = .missing ∨ t = .emptyDir) (mpath mvers : Bytes) (files : List Zip.FileInfo) (es : List Zip.Entry)
+    (zipSize : Nat) (h : Zip.create E mpath mvers files = .ok es) (hz : zipSize ≤ Zip.MaxZipFile) :
+    (Zip.unzip E dir t mpath mvers zipSize es).err = none ∧
+    hashZip sha (DirhashZip.zipPairs es) =
+      hashDir sha (DirhashZip.treeOfEffects dir (Zip.unzip E dir t mpath mvers zipSize es).effects)
+        (mpath ++ [64] ++ mvers) :=
+  ⟨(DirhashZip.treeOfEffects_unzip E hE dir hdir t ht mpath mvers files es zipSize h hz).1,
+    DirhashZip.hashZip_create_eq_hashDir_unzip sha E hE hM dir hdir t ht mpath mvers files es zipSize h hz⟩
+
+/-! non-vacuity of `zip_dir_agree_composed`: a three-file module with a nested directory -/
+
+/-- `CheckFilePath` reduced to the element rule, the real module check -/
+def exEnv : Zip.Env :=
+  { cfp := fun p => !p.isEmpty && (splitOn 47 p).all (fun c => c != [] && c != [46] && c != [46, 46]),
+    toFold := Zip.lowerAscii, modOK := DirhashZip.modOKOf }
+
+theorem exEnv_cfpSound : ZipSpec.CfpSound exEnv.cfp := by
+  intro p hp c hc
+  simp only [exEnv, Bool.and_eq_true, List.all_eq_true] at hp
+  have := hp.2 c hc
+  simp at this
+  exact ⟨this.1.1, this.1.2, this.2⟩
+
+def exFiles : List Zip.FileInfo :=
+  [⟨B "go.mod", .regular, 2, B "hi", false⟩, ⟨B "a/b.go", .regular, 1, B "x", false⟩,
+   ⟨B "a/c/d.go", .regular, 1, B "y", false⟩]
+
+def exEntries : List Zip.Entry :=
+  [⟨B "example.com/m@v1.0.0/go.mod", 2, B "hi"⟩, ⟨B "example.com/m@v1.0.0/a/b.go", 1, B "x"⟩,
+   ⟨B "example.com/m@v1.0.0/a/c/d.go", 1, B "y"⟩]
+
+/-- kernel evaluation: `create` succeeds with the three entries; `unzip` into the missing target `t` succeeds
+    and creates `t/go.mod`, `t/a/b.go`, `t/a/c/d.go`; the tree is the three files; both hashes are computed
+    (with `sha := id`, as in the examples above) and are the same string -/
+example : (Zip.create exEnv (B "example.com/m") (B "v1.0.0") exFiles).toOption = some exEntries ∧
+    (Zip.unzip exEnv (B "t") .missing (B "example.com/m") (B "v1.0.0") 100 exEntries).err = none ∧
+    Zip.createdFiles (Zip.unzip exEnv (B "t") .missing (B "example.com/m") (B "v1.0.0") 100 exEntries).effects =
+      [B "t/go.mod", B "t/a/b.go", B "t/a/c/d.go"] ∧
+    DirhashZip.filesUnder (B "t") (Zip.unzip exEnv (B "t") .missing (B "example.com/m") (B "v1.0.0") 100 exEntries).effects =
+      [(B "go.mod", B "hi"), (B "a/b.go", B "x"), (B "a/c/d.go", B "y")] ∧
+    (∃ r, hashZip id (DirhashZip.zipPairs exEntries) = .ok r ∧
+      hashDir id (DirhashZip.treeOfEffects (B "t")
+        (Zip.unzip exEnv (B "t") .missing (B "example.com/m") (B "v1.0.0") 100 exEntries).effects)
+        (B "example.com/m@v1.0.0") = .ok r) := by
+  refine ⟨by decide +kernel, by decide +kernel, by decide +kernel, by decide +kernel, ?_⟩
+  refine ⟨(hashZip id (DirhashZip.zipPairs exEntries)).toOption.getD [], by decide +kernel, by decide +kernel⟩
+
+/-- … and the theorem applies to it (all hypotheses hold) -/
+example (sha : Bytes → Bytes) : ∃ es, Zip.create exEnv (B "example.com/m") (B "v1.0.0") exFiles = .ok es ∧
+    (Zip.unzip exEnv (B "t") .missing (B "example.com/m") (B "v1.0.0") 100 es).err = none ∧
+    hashZip sha (DirhashZip.zipPairs es) =
+      hashDir sha (DirhashZip.treeOfEffects (B "t")
+        (Zip.unzip exEnv (B "t") .missing (B "example.com/m") (B "v1.0.0") 100 es).effects)
+        (B "example.com/m" ++ [64] ++ B "v1.0.0") := by
+  have hc : (Zip.create exEnv (B "example.com/m") (B "v1.0.0") exFiles).toOption = some exEntries := by
+    decide +kernel
+  cases hcr : Zip.create exEnv (B "example.com/m") (B "v1.0.0") exFiles with
+  | error e => rw [hcr] at hc; cases hc
+  | ok es =>
+    obtain ⟨u1, u2⟩ := zip_dir_agree_composed sha exEnv exEnv_cfpSound modOKSound_check (B "t")
+      (Or.inr (Or.inl (by decide +kernel))) .missing (Or.inl rfl) (B "example.com/m") (B "v1.0.0") exFiles es 100
+      hcr (by decide)
+    exact ⟨es, rfl, u1, u2⟩
 
 end ModVerif.Props.C19
